@@ -105,7 +105,8 @@ class PathDomain(Domain):
                     if norm_text(val) == norm_text(d[t.id] if d.get(t.id) is not None else t.id) and (t.id not in d or d[t.id] is not None):
                         continue                # x = x (e.g. an inlined helper handing its argument back): nothing changes
                     d[t.id] = val
-                    facts = frozenset(f for f in facts if not self._mentions(f[2], t.id))
+                    # facts about the value the name had so far stay true of that value: they are kept under the name `<name>__was`
+                    facts = frozenset(self._age(f, t.id) if self._mentions(f[2], t.id) else f for f in facts)
                 elif isinstance(t, (ast.Tuple, ast.List)):
                     for x in ast.walk(t):
                         if isinstance(x, ast.Name):
@@ -132,6 +133,22 @@ class PathDomain(Domain):
         elif isinstance(stmt, (ast.FunctionDef, ast.ClassDef)):
             d[stmt.name] = None
         return ((tuple(sorted(d.items(), key=lambda kv: kv[0])), facts, events),)
+
+    @staticmethod
+    def _age(fact, name):
+        tr, _key, srcp = fact
+        try:
+            tree = ast.parse(srcp, mode='eval')
+        except SyntaxError:
+            return fact
+
+        class R(ast.NodeTransformer):
+            def visit_Name(self, n):
+                if n.id == name:
+                    return ast.copy_location(ast.Name(id=name + '__was', ctx=n.ctx), n)
+                return n
+        new = ast.unparse(R().visit(tree))
+        return (tr, norm_text(new), new)
 
     @staticmethod
     def _mentions(text, name):
